@@ -19,7 +19,7 @@ CO_GENERATOR = 0x20
 
 RENDERERS = ('report', 'dump', 'json')
 
-#: the 15 ordered non-empty subsets of the three renderers
+#: the 15 ordered non-empty subsets of the three renderers, plus three orders with a repeated call
 ORDERS = []
 for _a in RENDERERS:
     ORDERS.append((_a,))
@@ -32,6 +32,8 @@ for _a in RENDERERS:
         for _c in RENDERERS:
             if len({_a, _b, _c}) == 3:
                 ORDERS.append((_a, _b, _c))
+# a renderer called twice must work twice (and must not log a second marker)
+ORDERS += [('report', 'report'), ('dump', 'json', 'dump'), ('json', 'json', 'report')]
 ORDERS = tuple(ORDERS)
 
 
